@@ -51,7 +51,7 @@ structure Obs where
 
 inductive Clause
   | rejectedFirst | returnedExists | returnedAllowed | forbiddenByName | grantedAllowed | grantNeedsMatch
-  | orderIndependent
+  | orderIndependent | joinedAllowed | attributedWithoutCredential
   deriving DecidableEq, Repr
 
 def Clause.name : Clause → String
@@ -62,6 +62,8 @@ def Clause.name : Clause → String
   | .grantedAllowed => "granted_access_is_allowed"
   | .grantNeedsMatch => "grant_needs_matching_permission"
   | .orderIndependent => "result_independent_of_visit_order"
+  | .joinedAllowed => "joined_objects_allowed"
+  | .attributedWithoutCredential => "attributed_only_with_credential"
 
 /-- "rejected": the request failed.  Which error object or message the code uses for it is not part of the
     property (the model's `Err.permission` is finer than what is observed). -/
@@ -98,6 +100,27 @@ def specQuery (u : User) (qd : QD) (q : Query) (inv : Inventory) (obs : Obs) : O
 def specAccess (u : User) (perm : String) (o : Obj) (granted : Bool) : Option Clause :=
   if perm == "" then none
   else if granted && !allowedB u perm o then some .grantedAllowed else none
+
+/-- Joined objects are an access path of their own: every joined object serialized in a response is of a type the
+    user may query and passes that permission's filter. -/
+def specJoin (u : User) (joined : Obj) (serialized : Bool) : Option Clause :=
+  if serialized && !allowedB u ("objects/query/" ++ joined.type) joined then some .joinedAllowed else none
+
+/-- "A request is attributed to user U only if it presents U's non-empty password …" -/
+def specAuthHeader (header : String) (decoded : Option String) (attributed : Option AUser) : Option Clause :=
+  match attributed with
+  | none => none
+  | some u =>
+    match credentialsOf header decoded with
+    | some (name, pw) =>
+      if name == u.name && pw != "" && pw == u.password then none else some .attributedWithoutCredential
+    | none => some .attributedWithoutCredential
+
+/-- "… or U's client CN" (the CN of the verified client certificate). -/
+def specAuthCN (cn : String) (attributed : Option AUser) : Option Clause :=
+  match attributed with
+  | none => none
+  | some u => if u.clientCN == cn then none else some .attributedWithoutCredential
 
 /-- The property for a bare permission check: granted only if some entry matches. -/
 def specGrant (u : User) (perm : String) (granted : Bool) : Option Clause :=
